@@ -69,8 +69,8 @@ from pyvc.engine import STR_CONCAT
 from pyvc.values import id_lit, VReal, xr_lt
 
 MF = "cobra/flux_analysis/fastcc.py"
-KEY_SM, KEY_FLIP = "_find_sparse_mode", "_flip_coefficients"
-MINE = {KEY_SM, KEY_FLIP}
+KEY_SM, KEY_FLIP, KEY_FCC = "_find_sparse_mode", "_flip_coefficients", "fastcc"
+MINE = {KEY_SM, KEY_FLIP, KEY_FCC}
 ZERO = z3.Const("np:Zero", N.NP)
 NpCoef = z3.ArraySort(N.NP, z3.RealSort())
 Primal = z3.ArraySort(Ref, z3.RealSort())
@@ -176,7 +176,8 @@ def getattr_hook(eng, st, v, name):
         return None
     if isinstance(v, VObj) and v.cls == "Model" and name == "objective":
         return [("ok", st, _objective_of(st, v))]
-    if isinstance(v, VObj) and v.cls == "Model" and name == "reactions" and st.ghost.get("solved") is not None:
+    if isinstance(v, VObj) and v.cls == "Model" and name == "reactions" and st.ghost.get("solved") is not None \
+            and eng.cur_contract.key == KEY_SM:
         # `[rxn for rxn in model.reactions if abs(rxn.flux) > zero_cutoff]` after the solve: Reaction.flux checks the solver status
         # first (check_solver_status, C04) and raises OptimizationError for a status without primal values - at the first reaction
         dl = st.objs[v.oid]["attr:reactions"]
@@ -301,6 +302,20 @@ def flux_above(E, st, r, cut):
 
 
 # ---------------------------------------------------------------- _find_sparse_mode
+def in_model(E, st, x):
+    """x is an element of model.reactions (through the DictList index: no existential)"""
+    dl = st.objs[E["model"].oid]["attr:reactions"]
+    n, e = L(st, dl)
+    dom, val = Dv(st, dl)
+    ida = idarr(E, st)
+    return z3.And(z3.Select(dom, ida[x]), e[val[ida[x]]] == x)
+
+
+def members_of_model(E, st, ln, elem):
+    j = qv("mj")
+    return FA([j], z3.Implies(z3.And(0 <= j, j < ln), in_model(E, st, elem[j])), patterns=[elem[j]])
+
+
 def _sm_pre(E):
     dl = _m(E)["attr:reactions"]
     n, e = _listed(E)
@@ -365,6 +380,8 @@ def _sm_post(E):
            FA([j2], z3.Implies(z3.And(0 <= j2, j2 + 1 < rn), src[j2] < src[j2 + 1]), patterns=[src[j2 + 1]]),
            FA([i], z3.Implies(z3.And(0 <= i, i < mn, flux_above(E, E.s1, me[i], cut)),
                               z3.And(0 <= dst[i], dst[i] < rn, re_[dst[i]] == me[i])), patterns=[dst[i]])]
+    # every element of the answer is a reaction of the model (the form used at call sites: through the DictList index)
+    cs.append(members_of_model(E, E.s0, rn, re_))
     # it returns normally only when the status has primal values (or there is nothing to read)
     cs.append(z3.Or(_status_has_values(E.s1, E["model"]), mn == 0))
     return z3.And(*cs)
@@ -583,10 +600,22 @@ def _objective_negated(o0, o1):
 
 
 def _flip_pre(E):
-    """the rows of different listed reactions are different objects (jof: the index of the listed reaction a row belongs to)"""
+    """the listed reactions are non-null and have pairwise different identifiers"""
     n, rx = _listed(E)
-    j = qv("qj")
-    return FA([j], z3.Implies(z3.And(0 <= j, j < n), z3.And(rx[j] != NULL, jof(row_named(E, rx[j])) == j)), patterns=[rx[j]])
+    ida = idarr(E, E.s0)
+    j, j2 = qv("qj"), qv("qk")
+    return z3.And(FA([j], z3.Implies(z3.And(0 <= j, j < n), rx[j] != NULL), patterns=[rx[j]]),
+                  FA([j, j2], z3.Implies(z3.And(0 <= j, j < j2, j2 < n), ida[rx[j]] != ida[rx[j2]]), patterns=[z3.MultiPattern(rx[j], rx[j2])]))
+
+
+def _flip_axioms(E):
+    """assumed (strings, optlang): rows looked up under the names "constraint_" + id of reactions with different identifiers are
+    different objects - stated through the ghost inverse jof (row -> index of the listed reaction it belongs to), which exists
+    exactly when j -> row_named(rx[j]) is injective on the list"""
+    n, rx = _listed(E)
+    j = qv("xj")
+    # conditional on the precondition: axioms are also assumed at call sites, BEFORE the precondition is obliged there
+    return [z3.Implies(_flip_pre(E), FA([j], z3.Implies(z3.And(0 <= j, j < n), jof(row_named(E, rx[j])) == j), patterns=[rx[j]]))]
 
 
 def _flip_post(E):
@@ -610,12 +639,311 @@ def _flip_mod(E):
 
 
 REG.add(Contract(MF, "_flip_coefficients", "C19", [("model", _flip_model_t()), ("rxns", TList("ref:Reaction"))],
-                 [Case("any", ensures=_flip_post)], pre=_flip_pre, modifies=_flip_mod, key=KEY_FLIP,
+                 [Case("any", ensures=_flip_post)], pre=_flip_pre, axioms=_flip_axioms, modifies=_flip_mod, key=KEY_FLIP,
                  loops={0: LoopSpec(_flip_inv, lambda E, Lc: [("ghost", "ccoef", lambda st: fresh("ccoef", RowCoef)),
                                                               ("ghost", "trace", lambda st: ())])},
-                 note="listed reactions pairwise different (different rows); their rows and auxiliary variables exist in the solver "
+                 note="listed reactions have pairwise different identifiers (assumed: hence different rows); their rows and auxiliary variables exist in the solver "
                       "(model.constraints.get / model.variables.get are opaque look-ups that find the named object: after "
                       "_find_sparse_mode on a superset of the list, as in fastcc)"))
+
+
+# ================================================================ fastcc (the skeleton: contexts, bookkeeping, final construction)
+from . import c03_context as C3      # noqa: E402
+from . import misc_small  # noqa: E402,F401  (normalize_cutoff)
+from pyvc.state import alloc_list as _alloc_list, alloc_obj as _alloc_obj  # noqa: E402
+label_at = z3.Function("np:label_at", N.NP, I, Id)          # the i-th entry of an opaque list of identifiers
+
+
+def _fcc_model_t():
+    obj = TObj("Objective", {"value": TReal(), "direction": TStr(), "expression": N.TNp(), "variables": N.TNp()})
+    sol = TObj("Solver", {"status": TStr(), "objective": obj})
+    return TObj("Model", {"_contexts": TList("ref:HistoryManager"), "_solver": sol, "reactions": TDictList("Reaction"),
+                          "tolerance": TReal(), "problem": N.TNp(), "constraints": N.TNp(), "variables": N.TNp()})
+
+
+# ---- the two helpers at their call sites: the PROVED contracts above, with the part of their post-condition the skeleton needs
+def _sm_call_result(eng, st, E):
+    return _alloc_list(st, "ref:Reaction", base="sparse_mode")
+
+
+def _sm_call_listed(E):
+    rn, re_ = L(E.s1, E.res)
+    return members_of_model(E, E.s0, rn, re_)              # literally a conjunct of the proved post-condition (_sm_post)
+
+
+def _sm_call_cases():
+    c = Case("listed", requires=lambda E: _listed(E)[0] > 0, ensures=_sm_call_listed)
+    c.may_raise = "OptimizationError"
+    c.ensures_on_raise = lambda E: z3.BoolVal(True)
+    c.modifies_on_raise = _sm_mod
+    return [c, Case("empty", requires=lambda E: _listed(E)[0] <= 0, ensures=lambda E: L(E.s1, E.res)[0] == 0)]
+
+
+SM_CALL = copy.copy(REG.get(KEY_SM))
+SM_CALL.call_cases = _sm_call_cases()
+SM_CALL.result = _sm_call_result
+FLIP_CALL = copy.copy(REG.get(KEY_FLIP))
+FLIP_CALL.call_cases = [Case("any")]                        # its post-condition is not needed by the skeleton
+
+
+def _stack_as_at_entry(E, st):
+    n0, e0 = C3._ctxs(E.s0, E["model"])
+    n1, e1 = C3._ctxs(st, E["model"])
+    j = qv("cj")
+    return z3.And(n1 == n0, FA([j], z3.Implies(z3.And(0 <= j, j < n0), e1[j] == e0[j]), patterns=[e1[j]]))
+
+
+def _in_own_context(E, st):
+    n0, e0 = C3._ctxs(E.s0, E["model"])
+    n1, e1 = C3._ctxs(st, E["model"])
+    j = qv("oj")
+    return z3.And(n1 == n0 + 1, FA([j], z3.Implies(z3.And(0 <= j, j < n0), e1[j] == e0[j]), patterns=[e1[j]]))
+
+
+def _entry_env(eng):
+    return Env(eng.entry_args, eng.entry_state, eng=eng)
+
+
+def _is_fcc(eng):
+    return getattr(getattr(eng, "cur_contract", None), "key", None) == KEY_FCC
+
+
+def fcc_global(eng, name):
+    if _is_fcc(eng) and name in (KEY_SM, KEY_FLIP):
+        return VFunc("abstract", name)
+    return None
+
+
+def fcc_call_abstract(eng, st, f, pos, kw):
+    if not _is_fcc(eng) or f.a not in (KEY_SM, KEY_FLIP):
+        return None
+    E0 = _entry_env(eng)
+    # every helper call happens on the ARGUMENT model while the function's own context is the innermost one
+    eng.oblige(st, z3.BoolVal(bool(pos) and isinstance(pos[0], VObj) and pos[0].oid == eng.entry_args["model"].oid),
+               f"fastcc/{f.a}-called-on-the-argument-model", kind="side")
+    eng.oblige_split(st, _in_own_context(E0, st), f"fastcc/{f.a}-called-inside-own-context", kind="side")
+    saved = _tr(st)
+    con = SM_CALL if f.a == KEY_SM else FLIP_CALL
+    outs = eng.apply_contract(st, con, list(pos), kw)
+    return [(k, s.setghost("trace", saved + ((f.a, k),)), v) for k, s, v in outs]
+
+
+def fcc_getattr(eng, st, v, name):
+    if _is_fcc(eng) and isinstance(v, VRef) and v.cls == "Reaction" and name == "reversibility":
+        # Reaction.reversibility: `self._lower_bound < 0 < self._upper_bound`, as a term (usable in a comprehension filter)
+        lbk, lbv = eng.heap_arr(st, "_lower_bound")
+        ubk, ubv = eng.heap_arr(st, "_upper_bound")
+        zero = VReal(0, z3.RealVal(0))
+        return [("ok", st, VBool(z3.And(xr_lt(VReal(lbk[v.t], lbv[v.t]), zero), xr_lt(zero, VReal(ubk[v.t], ubv[v.t])))))]
+    return None
+
+
+def _list_as_set(eng, st, v):
+    from pyvc import comprehension as C
+    if isinstance(v, VObj) and v.kind == "set":
+        return [("ok", st, v)]
+    return C.set_of_iterable(eng, st, v)
+
+
+def fcc_call_method(eng, st, recv, name, pos, kw):
+    if not _is_fcc(eng) or not isinstance(recv, VObj):
+        return None
+    if recv.kind == "set" and name in ("difference", "intersection") and len(pos) == 1 and not kw \
+            and isinstance(pos[0], VObj) and pos[0].kind == "list":
+        # set.difference(<list>) / set.intersection(<list>): the list argument is read as the set of its elements
+        def go(s, other):
+            rec, orec = s.objs[recv.oid], s.objs[other.oid]
+            if rec.get("lazy") or orec.get("lazy"):
+                raise Unsupported("set operation with a still untyped empty set")
+            newdom = fresh("setop", rec["dom"].sort())
+            k = z3.Const(fresh_name("dk"), rec["dom"].sort().domain())
+            b = z3.Select(orec["dom"], k)
+            ax = FA([k], z3.Select(newdom, k) == z3.And(z3.Select(rec["dom"], k), z3.Not(b) if name == "difference" else b),
+                    patterns=[z3.Select(newdom, k)])
+            from pyvc.state import alloc_set
+            s2, out = alloc_set(s.assume(ax), rec["kkind"], dom=newdom)
+            return [("ok", s2, out)]
+        return eng.bind(_list_as_set(eng, st, pos[0]), go)
+    if recv.cls == "Model" and name == "optimize" and recv.oid == eng.entry_args["model"].oid:
+        # model.optimize(min): the BUILTIN FUNCTION min is passed as objective_sense - not one of the documented senses (None /
+        # "maximize" / "minimize"), so Model.optimize keeps the direction of the objective; recorded, the result is opaque
+        E0 = _entry_env(eng)
+        eng.oblige_split(st, _in_own_context(E0, st), "fastcc/optimize-called-inside-own-context", kind="side")
+        arg = pos[0] if pos else kw.get("objective_sense", NONE)
+        a = {"objective_sense": VStr(fresh("undocumented_sense", Id)) if not isinstance(arg, (VNone, VStr, VConc)) else arg,
+             "raise_error": VBool(False)}
+        res = []
+        for k, s, v in eng.apply_contract(st, OPT, [recv], a):
+            if k == "ok":
+                v = N.VNp(fresh("np:solution", N.NP))
+                s = _log(s, "optimize", arg, v)
+            res.append((k, s, v))
+        return res
+    if recv.cls == "Model" and name == "copy" and not pos and not kw and recv.oid == eng.entry_args["model"].oid:
+        # model.copy() (C12): a NEW model object; the call is recorded with the state it is made in
+        st2, c = _alloc_obj(st, "Model", {"attr:is_copy": VBool(True)})
+        return [("ok", _log(st2, "copy", c, st), c)]
+    if recv.cls == "Model" and name == "remove_reactions":
+        # <model>.remove_reactions(ids, remove_orphans=True) (C02): recorded with the receiver, the list as it is now, the state
+        snap = None
+        if len(pos) == 1 and isinstance(pos[0], VObj) and pos[0].kind == "list":
+            rec = st.objs[pos[0].oid]
+            snap = (rec["len"], rec["elem"], rec["ekind"])
+        return [("ok", _log(st, "remove_reactions", recv, snap, _kws(kw), st), NONE)]
+    if recv.cls == "DictList" and name == "get_by_id" and len(pos) == 1 and isinstance(pos[0], VStr) \
+            and recv.oid == st.objs[eng.entry_args["model"].oid]["attr:reactions"].oid:
+        # model.reactions.get_by_id(label) for the labels of the solution's fluxes: assumed to be identifiers of reactions of the
+        # model (get_solution indexes the fluxes by the reaction ids: C04), so the look-up finds the reaction (no KeyError path)
+        n, e = L(st, recv)
+        dom, val = Dv(st, recv)
+        return [("ok", st.assume(z3.Select(dom, pos[0].t)), VRef(e[val[pos[0].t]], "Reaction"))]
+    return None
+
+
+def fcc_iter(eng, st, v):
+    """iterating the opaque list of labels `sol.fluxes.index[...].tolist()`: its entries are identifiers"""
+    if _is_fcc(eng) and isinstance(v, N.VNp):
+        n = N.np_len(v.t)
+        return [("ok", st.assume(n >= 0), VSeq(n, lambda s, i: VStr(label_at(v.t, i)), tag="labels"))]
+    return None
+
+
+FCC_HOOKS = chain_hooks({"global": fcc_global, "call_abstract": fcc_call_abstract, "getattr": fcc_getattr, "call_method": fcc_call_method,
+                         "iter": fcc_iter}, FLIP_HOOKS, C3.ALL_HOOKS)
+HOOKS = FCC_HOOKS                     # one table for the three functions (every hook is guarded by the contract being executed)
+
+
+def _fcc_pre(E):
+    m = E["model"]
+    dl = _m(E)["attr:reactions"]
+    n, e = L(E.s0, dl)
+    j = qv("pj")
+    return z3.And(WF(E, E.s0, dl), C3._ctx_nonnull(Env({"obj": m}, E.s0, eng=E.eng)),
+                  FA([j], z3.Implies(z3.And(0 <= j, j < n), z3.And(e[j] != NULL, C1.model_of(E, E.s0, e[j]) != NULL)), patterns=[e[j]]))
+
+
+def _fcc_local(E, st, name):
+    return st.lookup(E.eng._top_fid, name)
+
+
+def _fcc_inv(E, Lc):
+    """while rxns_to_check: ... - between two iterations no context of the function is open, the kept list only grows and holds
+    reactions of the model, the reactions still to check are reactions of the model"""
+    keep, check = Lc.var("rxns_to_keep"), Lc.var("rxns_to_check")
+    if not (isinstance(keep, VObj) and keep.kind == "list" and isinstance(check, VObj) and check.kind == "list"):
+        return z3.BoolVal(False)
+    if keep.oid not in Lc.entry.objs:
+        return z3.BoolVal(False)                            # the kept list must be the SAME list throughout (it is only extended)
+    kn, ke = L(Lc.st, keep)
+    cn, ce = L(Lc.st, check)
+    kn0, ke0 = L(Lc.entry, keep)
+    j = qv("gj")
+    no_final_step = not any(ev[0] in ("copy", "remove_reactions") for ev in _tr(Lc.st))      # the copy is made after the loop
+    return z3.And(z3.BoolVal(no_final_step), _stack_as_at_entry(E, Lc.st), C3._ctx_nonnull(Env({"obj": E["model"]}, Lc.st, eng=E.eng)),
+                  members_of_model(E, E.s0, kn, ke), members_of_model(E, E.s0, cn, ce),
+                  kn >= kn0, FA([j], z3.Implies(z3.And(0 <= j, j < kn0), ke[j] == ke0[j]), patterns=[ke[j]]))
+
+
+def _fcc_loop_mod(E, Lc):
+    m = E["model"]
+    return [("list", Lc.var("rxns_to_keep")), ("list", Lc.var("rxns_to_check")), ("heap", "hm_len"),
+            ("attr", m, "_contexts", lambda st: _alloc_list(st, "ref:HistoryManager")),
+            ("ghost", "world", lambda st: fresh("world", C3.World)), ("ghost", "ccoef", lambda st: fresh("ccoef", RowCoef))] + \
+        _sm_mod(E)
+
+
+def _fcc_mod(E):
+    m = E["model"]
+    return [("heap", "hm_len"), ("attr", m, "_contexts", lambda st: _alloc_list(st, "ref:HistoryManager")),
+            ("ghost", "world", lambda st: fresh("world", C3.World)), ("ghost", "ccoef", lambda st: fresh("ccoef", RowCoef))] + _sm_mod(E)
+
+
+def _order_for(st, ln):
+    """the ghost enumeration (order, pos) of the set whose listing has length `ln`"""
+    ln = z3.simplify(ln)
+    hits = [v for k, v in st.ghost.items() if isinstance(k, tuple) and len(k) == 3 and k[0] == "order" and z3.simplify(v[2]).eq(ln)]
+    return hits[-1] if hits else None
+
+
+def _fcc_post(E):
+    m = E["model"]
+    tr = _tr(E.s1)
+    if len(tr) < 2 or tr[-2][0] != "copy" or tr[-1][0] != "remove_reactions" or any(ev[0] in ("copy", "remove_reactions") for ev in tr[:-2]):
+        return z3.BoolVal(False)
+    _, cp, st_copy = tr[-2]
+    _, recv, snap, kws, st_rm = tr[-1]
+    # FINAL CONSTRUCTION: model.copy() once, after the last context is closed; remove_reactions on THE COPY; the copy is returned
+    if not (isinstance(E.res, VObj) and E.res.oid == cp.oid and cp.oid != m.oid and cp.oid not in E.s0.objs
+            and isinstance(recv, VObj) and recv.oid == cp.oid and snap is not None and snap[2] == "id"
+            and len(kws) == 1 and kws[0][0] == "remove_orphans" and isinstance(kws[0][1], (VBool, VConc))):
+        return z3.BoolVal(False)
+    orph = kws[0][1]
+    cs = [orph.t if isinstance(orph, VBool) else z3.BoolVal(orph.py is True), _stack_as_at_entry(E, st_copy), _stack_as_at_entry(E, E.s1)]
+    # A = the set of the kept reactions: a subset of the model's reactions
+    A = _fcc_local(E, st_rm, "consistent_rxns")
+    keep = _fcc_local(E, st_rm, "rxns_to_keep")
+    rn, re_ = snap[0], snap[1]
+    od = _order_for(st_rm, rn)
+    if not (isinstance(A, VObj) and A.kind == "set" and isinstance(keep, VObj) and od is not None):
+        return z3.BoolVal(False)
+    adom = st_rm.objs[A.oid]["dom"]
+    kn, ke = L(st_rm, keep)
+    order, pos_, _ = od
+    x, j = qv("rx", Ref), qv("rj")
+    ida = idarr(E, E.s0)
+    cs += [members_of_model(E, E.s0, kn, ke),
+           FA([j], z3.Implies(z3.And(0 <= j, j < kn), z3.Select(adom, ke[j])), patterns=[ke[j]]),
+           FA([x], z3.Implies(z3.Select(adom, x), in_model(E, E.s0, x)), patterns=[z3.Select(adom, x)]),
+           # the identifiers handed to remove_reactions: exactly those of the reactions of the model that are not in A
+           FA([j], z3.Implies(z3.And(0 <= j, j < rn), z3.And(re_[j] == ida[order[j]], in_model(E, E.s0, order[j]),
+                                                             z3.Not(z3.Select(adom, order[j])))), patterns=[order[j]]),
+           FA([x], z3.Implies(z3.And(in_model(E, E.s0, x), z3.Not(z3.Select(adom, x))),
+                              z3.And(0 <= pos_[x], pos_[x] < rn, re_[pos_[x]] == ida[x])), patterns=[pos_[x]])]
+    # the argument model's reaction list is the one found at entry (nothing is added to / removed from the argument)
+    dl = _m(E)["attr:reactions"]
+    cs.append(z3.BoolVal(E.s1.objs[dl.oid] is E.s0.objs[dl.oid] and all(
+        _same_arrays(E.eng.heap_arr(E.s1, f), E.eng.heap_arr(E.s0, f)) for f in ("_lower_bound", "_upper_bound", "_id", "_model"))))
+    return z3.And(*cs)
+
+
+def _same_arrays(a, b):
+    if isinstance(a, tuple):
+        return all(x.eq(y) for x, y in zip(a, b))
+    return a.eq(b)
+
+
+def _fcc_on_raise(E):
+    return _stack_as_at_entry(E, E.s1)
+
+
+def _fcc_cases():
+    out = []
+    tol = lambda E: _m(E)["attr:tolerance"]          # noqa
+    for tag, t in (("cutoff_none", TNone()), ("cutoff_given", TReal())):
+        c = Case(tag, ensures=_fcc_post)
+        c.params_override = {"zero_cutoff": t}
+        if tag == "cutoff_given":
+            c.requires = lambda E: z3.Not(xr_lt(E["zero_cutoff"], tol(E)))
+        c.may_raise = "OptimizationError"             # a solve that raises / ends without primal values: propagates, contexts closed
+        c.ensures_on_raise = _fcc_on_raise
+        c.modifies_on_raise = _fcc_mod
+        out.append(c)
+    c = Case("cutoff_below_tolerance", requires=lambda E: xr_lt(E["zero_cutoff"], tol(E)), raises="ValueError",
+             ensures=lambda E: z3.BoolVal(len(_tr(E.s1)) == 0))
+    c.params_override = {"zero_cutoff": TReal()}
+    out.append(c)
+    return out
+
+
+_thr = TReal()
+_thr.default = VReal(0, z3.RealVal(1))
+_zc = TNone()
+_zc.default = NONE
+REG.add(Contract(MF, "fastcc", "C19", [("model", _fcc_model_t()), ("flux_threshold", _thr), ("zero_cutoff", _zc)], _fcc_cases(),
+                 pre=_fcc_pre, modifies=_fcc_mod, key=KEY_FCC, axioms=lambda E: C3.run_axioms(),
+                 loops={0: LoopSpec(_fcc_inv, _fcc_loop_mod)},
+                 note="the skeleton only: that the kept set ends up being exactly the non-blocked reactions is the FASTCC theorem "
+                      "(and fails for reversible reactions: open finding fastcc-drops-reversible) - bounded driver"))
 
 
 # ================================================================ lemmas
@@ -652,7 +980,7 @@ def lemmas():
     s = [st.setghost("ccoef", z3.Const(f"g_cc{i}", RowCoef)).setghost("objc_np", z3.Const(f"g_oc{i}", NpCoef)) for i in range(3)]
     n, _ = L(st, rx)
     E01, E12 = Env(a, s[0], s[1], eng=eng), Env(a, s[0], s[2], eng=eng)
-    hyps = eng.kind_axioms(st) + [_flip_pre(E01),
+    hyps = eng.kind_axioms(st) + [_flip_pre(E01)] + _flip_axioms(E01) + [
                                   _rows_state(E01, ccoef(s[0]), ccoef(s[1]), n), _objective_negated(objc_np(s[0]), objc_np(s[1])),
                                   _rows_state(E12, ccoef(s[1]), ccoef(s[2]), n), _objective_negated(objc_np(s[1]), objc_np(s[2]))]
     c, k, x = z3.Const("g_c", N.NP), z3.Const("g_k", N.NP), z3.Const("g_x", N.NP)
